@@ -535,9 +535,40 @@ def has_challenge(desc):
     return False
 
 
+_FS_ROOT = []
+
+
+def fs_root():
+    """The scratch directory the character "$" of the specification's abstract file system (CincoFields.FsKind) stands
+    for: a regular file f, a directory d holding the regular file g, nothing else.  It is the working directory
+    while an operation runs on a schema that has a file-name field."""
+    if not _FS_ROOT:
+        from . import tlc
+
+        root = tlc.scratch("cinco-fs-")
+        with open(os.path.join(root, "f"), "w") as fp:
+            fp.write("x")
+        os.mkdir(os.path.join(root, "d"))
+        with open(os.path.join(root, "d", "g"), "w") as fp:
+            fp.write("y")
+        _FS_ROOT.append(root)
+    return _FS_ROOT[0]
+
+
+def has_kind(desc, kind):
+    if isinstance(desc, dict):
+        return desc.get("kind") == kind or any(has_kind(v, kind) for v in desc.values())
+    if isinstance(desc, (list, tuple)):
+        return any(has_kind(v, kind) for v in desc)
+    return False
+
+
 class World:
     def __init__(self, cinco, schema_desc, init, environ=None, root=None, topdown=True):
         self.cinco = cinco
+        self.chdir = None
+        if root is None and has_kind(schema_desc, "filename"):
+            root = self.chdir = fs_root()
         self.root = root
         self.desc = schema_desc
         self.plaintexts = None
@@ -630,6 +661,16 @@ class World:
         return cfg
 
     def step(self, ev):
+        if not self.chdir:
+            return self._step(ev)
+        cwd = os.getcwd()
+        os.chdir(self.chdir)
+        try:
+            return self._step(ev)
+        finally:
+            os.chdir(cwd)
+
+    def _step(self, ev):
         cinco = self.cinco
         op = ev["op"]
         n = ev.get("n")
@@ -702,7 +743,21 @@ class World:
                 target = getattr(owner, ev["k"])
                 if target is None:
                     raise NoContainer()
-                self._container_op(target, ev["o"], owner)
+                self._made_items = []
+                try:
+                    self._container_op(target, ev["o"], owner)
+                except Exception as first:  # noqa
+                    # a rejected operation changed nothing (C06), so the caller trying again with the very same
+                    # objects - a ready-made item configuration in particular - is rejected again, in the same way
+                    if self._made_items and ev["o"]["m"] in ("append", "insert", "setitem"):
+                        try:
+                            self._container_op(getattr(owner, ev["k"]), ev["o"], owner, reuse=True)
+                        except Exception as second:  # noqa
+                            if type(second) is not type(first):
+                                raise RetryDiffers("rejected with %s, the same call again with %s" % (type(first).__name__, type(second).__name__))
+                        else:
+                            raise RetryDiffers("rejected with %s, the same call with the same objects again was accepted" % type(first).__name__)
+                    raise
             else:
                 raise RuntimeError("unknown event %r" % (op,))
         except Exception as exc:  # noqa
@@ -724,14 +779,23 @@ class World:
         res["repl_other"] = sorted([[m] + list(p) for m, p in repl if m != n])
         return res
 
-    def _container_op(self, target, o, owner=None):
+    def _container_op(self, target, o, owner=None, reuse=False):
         cinco = self.cinco
         m = o["m"]
+
+        made = self._made_items if reuse else []
+        if not reuse:
+            self._made_items = made
+        taken = [0]
 
         def val(v):
             if v["t"] == "cfgobj":
                 # a ready-made configuration of the list's item schema / config type
-                return target.item_field()
+                if reuse:
+                    taken[0] += 1
+                    return made[taken[0] - 1]
+                made.append(target.item_field())
+                return made[-1]
             return value_to_py(cinco, v, None, self.root)
 
         if m == "item_reset":
@@ -776,6 +840,10 @@ class World:
             target.setdefault(val(o["k"]), val(o["v"]))
         else:
             raise RuntimeError("unknown container op %r" % (m,))
+
+
+class RetryDiffers(Exception):
+    """A rejected container operation, repeated with the same argument objects, did not fail in the same way."""
 
 
 class NoContainer(Exception):
